@@ -161,10 +161,9 @@ def parse : P (Rec × List Nat × List Nat × List Nat × List Nat) := do
   pure ({ channel, signed, presamples, data, sampPeriodBits, voltsPerArbBits, timeNs, frame,
           ptmBits, peakBits, rmsBits, avgBits, residBits, coefBits }, rh, rp, sh, sp)
 
-def runLine (ts : List String) : Verdict :=
-  match P.run parse ts with
-  | .error e => .bad e
-  | .ok (r, rh, rp, sh, sp) =>
+/-- judge one record with the bytes the message builders made for it -/
+def judgeOne (x : Rec × List Nat × List Nat × List Nat × List Nat) : Verdict :=
+  let (r, rh, rp, sh, sp) := x
     -- oracle on the implementation's bytes: decode per the document, compare with the record
     let okR := decRecord rh rp == some (expectRecord r) && rp.length == 2 * r.data.length
     let okS := decSummary sh sp == some (expectSummary r) && sp.length == 8 * r.coefBits.length
@@ -182,5 +181,46 @@ def runLine (ts : List String) : Verdict :=
                 (if r.coefBits.isEmpty then [] else ["coefs"]) ++
                 (if r.frame < 0 || r.timeNs < 0 then ["negative"] else []) ++
                 (if r.channel ≥ 32768 then ["bigchan"] else []))
+
+/-- a batch sent through the real publisher goroutine and what a subscriber received: one message per
+record, in order, each with exactly the two parts of that record's message -/
+def judgeWire (summaries : Bool) (recs : List (Rec × List Nat × List Nat × List Nat × List Nat))
+    (msgs : List (List (List Nat))) : Verdict :=
+  match recs.findSome? (fun x => match judgeOne x with | .ok _ => none | v => some v) with
+  | some v => v
+  | none =>
+    let want : List (List (List Nat)) := recs.map fun (_, rh, rp, sh, sp) => if summaries then [sh, sp] else [rh, rp]
+    if msgs.length < want.length then
+      .viol s!"C14:wire-missing a batch of {want.length} records put only {msgs.length} messages on the wire"
+    else if msgs.length > want.length then
+      .viol s!"C14:wire-framing a batch of {want.length} records put {msgs.length} messages on the wire"
+    else match (msgs.zip want).zipIdx.find? (fun ((m, w), _) => m != w) with
+      | some ((m, _), i) =>
+        .viol s!"C14:wire-framing record {i} of a batch of {want.length} arrived as a {m.length}-part message that is not its header and payload"
+      | none => .ok (["wire"] ++ (if want.length > 1 then ["batch"] else []) ++ (if summaries then ["wire-summaries"] else ["wire-records"]))
+
+open P in
+def parseWire : P (Bool × List (Rec × List Nat × List Nat × List Nat × List Nat) × Option (List (List (List Nat)))) := do
+  kw "sum"; let sm ← P.bool
+  kw "n"; let k ← nat
+  let recs ← rep parse k
+  let t ← tok
+  if t == "WIRE-NOT-JOINED" then pure (sm, recs, none) else
+  if t != "WIRE" then fail s!"expected WIRE got {t}" else
+  let m ← nat
+  let msgs ← rep (do let p ← nat; rep bytes p) m
+  pure (sm, recs, some msgs)
+
+def runLine (ts : List String) : Verdict :=
+  match ts with
+  | "wire" :: rest =>
+    match P.run parseWire rest with
+    | .error e => .bad e
+    | .ok (_, _, none) => .bad "the subscriber never received a warm-up message (harness problem)"
+    | .ok (sm, recs, some msgs) => judgeWire sm recs msgs
+  | _ =>
+  match P.run parse ts with
+  | .error e => .bad e
+  | .ok x => judgeOne x
 
 end DastardV.C14
